@@ -35,6 +35,9 @@ pub struct BlockCase {
     /// flip one byte of the data after the honest sender computed its CID
     pub tamper_at: Option<u32>,
     pub form: PrefixForm,
+    /// literal block bytes (byte-level entry); None = derived from `data_seed` / `data_len`
+    #[serde(default)]
+    pub raw_data: Option<Vec<u8>>,
 }
 
 pub fn block_strategy() -> impl Strategy<Value = BlockCase> {
@@ -66,6 +69,7 @@ pub fn block_strategy() -> impl Strategy<Value = BlockCase> {
             data_seed,
             tamper_at,
             form,
+            raw_data: None,
         },
     )
 }
@@ -115,7 +119,7 @@ pub fn parse_prefix(b: &[u8]) -> Option<(u64, u64, u64, u64)> {
 /// The (prefix, data) pair a case stands for, whether the data was altered after the honest sender computed its CID, and the
 /// unaltered data.
 pub fn build_block(c: &BlockCase) -> (Vec<u8>, Vec<u8>, bool, Vec<u8>) {
-    let original = fill_bytes(c.data_seed, c.data_len as usize);
+    let original = c.raw_data.clone().unwrap_or_else(|| fill_bytes(c.data_seed, c.data_len as usize));
     let true_len = digest_for(c.mh_code, &original).map(|d| d.len() as u64);
     let declared = c.declared_len.or(true_len).unwrap_or(32);
     let mut prefix = Vec::new();
@@ -400,6 +404,44 @@ fn run_batch(c: &BatchCase) -> CaseResult {
         .class_if(oversized > 0, "oversized-block-present")
         .class_if(input.len() >= 200, "ge-200-blocks")
         .class_if(skipped_messages > 0, "message-over-limit-skipped"))
+}
+
+/// Byte-level entry (libFuzzer, thorough tier): byte 0 is the selector (one conversion only), byte 1 the prefix length
+/// (0..23), then the literal prefix and the literal block; judged by the `blocks` oracle.
+pub fn fuzz_bytes(data: &[u8]) -> Option<crate::engine::FuzzOutcome> {
+    if data.len() < 2 {
+        return None;
+    }
+    let plen = (data[1] as usize % 24).min(data.len() - 2);
+    let c = BlockCase {
+        version: 1,
+        codec: 0x55,
+        mh_code: 0x12,
+        declared_len: None,
+        data_len: 0,
+        data_seed: 0,
+        tamper_at: None,
+        form: PrefixForm::Raw(data[2..2 + plen].to_vec()),
+        raw_data: Some(data[2 + plen..].to_vec()),
+    };
+    Some(crate::engine::FuzzOutcome { sub: "blocks".into(), case: serde_json::to_value(&c).ok()?, result: crate::engine::guarded(|| run_block(&c)) })
+}
+
+pub fn fuzz_seed_corpus() -> Vec<Vec<u8>> {
+    let mut out = Vec::new();
+    for (k, (version, codec, code)) in [(1u64, 0x55u64, 0x12u64), (0, 0x70, 0x12), (1, 0x70, 0x13), (1, 0x71, 0xb220), (1, 0x55, 0x16), (1, 0x55, 0x1b), (1, 0x55, 0xb240), (1, 0x55, 0x00), (2, 0x55, 0x12)].iter().enumerate() {
+        let data = fill_bytes(k as u64, 3 + 17 * k);
+        let len = digest_for(*code, &data).map(|d| d.len() as u64).unwrap_or(32);
+        let mut prefix = Vec::new();
+        for v in [*version, *codec, *code, len] {
+            prefix.extend(uvarint(v));
+        }
+        let mut v = vec![0u8, prefix.len() as u8];
+        v.extend(prefix);
+        v.extend(data);
+        out.push(v);
+    }
+    out
 }
 
 pub fn run(ctx: &mut Ctx) {
